@@ -1437,12 +1437,15 @@ def desugar(rec, prog, stats):
                 changed = True
                 continue
         if c in ("core::option::Option::<T>::and_then", "core::result::Result::<T, E>::and_then") and len(t["args"]) == 2 and not t["dest"]["proj"] \
-                and all(a_["k"] in ("move", "copy") and not a_["place"]["proj"] for a_ in t["args"]) \
-                and rec["locals"][t["args"][1]["place"]["local"]].get("k") == "closure":
+                and t["args"][0]["k"] in ("move", "copy") and not t["args"][0]["place"]["proj"] \
+                and ((t["args"][1]["k"] in ("move", "copy") and not t["args"][1]["place"]["proj"] and rec["locals"][t["args"][1]["place"]["local"]].get("k") == "closure")
+                     or (t["args"][1]["k"] == "const" and (t["args"][1].get("ty") or {}).get("k") == "fndef")):
             # o.and_then(f)  ->  match o { Some(v) => f(v), None => None }        r.and_then(f)  ->  match r { Ok(v) => f(v), Err(e) => Err(e) }
-            ol, fl = t["args"][0]["place"]["local"], t["args"][1]["place"]["local"]
+            ol = t["args"][0]["place"]["local"]
+            f_item = t["args"][1] if t["args"][1]["k"] == "const" else None
+            fl = None if f_item is not None else t["args"][1]["place"]["local"]
             oty = rec["locals"][ol]
-            fty = rec["locals"][fl]
+            fty = rec["locals"][fl] if fl is not None else None
             dty = rec["locals"][t["dest"]["local"]]
             is_opt = c.startswith("core::option")
             if oty.get("k") == "adt" and oty.get("args") and dty.get("k") == "adt" and (is_opt or len(oty["args"]) == 2):
@@ -1457,13 +1460,23 @@ def desugar(rec, prog, stats):
                 HIT, MISS, UNR = nb, nb + 1, nb + 2
                 blk["stmts"] = list(blk["stmts"]) + [{"k": "assign", "place": {"local": d, "proj": []}, "rv": {"k": "discr", "place": {"local": ol, "proj": []}}, "line": line}]
                 blk["term"] = {"k": "switch", "discr": {"k": "move", "place": {"local": d, "proj": []}}, "dty": isz, "arms": [[hit[0], HIT], [1 - hit[0], MISS]], "otherwise": UNR, "line": line}
-                rec["blocks"].append({"stmts": [
-                    {"k": "assign", "place": {"local": v, "proj": []},
-                     "rv": {"k": "use", "op": {"k": "move", "place": {"local": ol, "proj": [{"k": "downcast", "variant": hit[0], "name": hit[1]}, {"k": "field", "i": 0, "ty": pay}]}}}, "line": line},
-                    {"k": "assign", "place": {"local": tup, "proj": []}, "rv": {"k": "aggregate", "agg": "tuple", "ops": [{"k": "move", "place": {"local": v, "proj": []}}]}, "line": line}],
-                    "term": {"k": "call", "callee": "core::ops::FnOnce::call_once", "resolved": None, "cargs": [fty, {"k": "tuple", "elems": [pay]}], "rargs": [],
-                             "args": [{"k": "move", "place": {"local": fl, "proj": []}}, {"k": "move", "place": {"local": tup, "proj": []}}], "dest": copy.deepcopy(t["dest"]),
-                             "target": t["target"], "line": line}})
+                if f_item is not None:
+                    # a function item (`NonZeroU8::new`, a crate fn): called directly
+                    fpath = f_item["ty"]["path"]
+                    rf = resolve_fn_item(prog, f_item["ty"]) if fpath not in prog.fns else fpath
+                    rec["blocks"].append({"stmts": [
+                        {"k": "assign", "place": {"local": v, "proj": []},
+                         "rv": {"k": "use", "op": {"k": "move", "place": {"local": ol, "proj": [{"k": "downcast", "variant": hit[0], "name": hit[1]}, {"k": "field", "i": 0, "ty": pay}]}}}, "line": line}],
+                        "term": {"k": "call", "callee": fpath, "resolved": rf or fpath, "cargs": f_item["ty"].get("args", []), "rargs": f_item["ty"].get("args", []),
+                                 "args": [{"k": "move", "place": {"local": v, "proj": []}}], "dest": copy.deepcopy(t["dest"]), "target": t["target"], "line": line}})
+                else:
+                    rec["blocks"].append({"stmts": [
+                        {"k": "assign", "place": {"local": v, "proj": []},
+                         "rv": {"k": "use", "op": {"k": "move", "place": {"local": ol, "proj": [{"k": "downcast", "variant": hit[0], "name": hit[1]}, {"k": "field", "i": 0, "ty": pay}]}}}, "line": line},
+                        {"k": "assign", "place": {"local": tup, "proj": []}, "rv": {"k": "aggregate", "agg": "tuple", "ops": [{"k": "move", "place": {"local": v, "proj": []}}]}, "line": line}],
+                        "term": {"k": "call", "callee": "core::ops::FnOnce::call_once", "resolved": None, "cargs": [fty, {"k": "tuple", "elems": [pay]}], "rargs": [],
+                                 "args": [{"k": "move", "place": {"local": fl, "proj": []}}, {"k": "move", "place": {"local": tup, "proj": []}}], "dest": copy.deepcopy(t["dest"]),
+                                 "target": t["target"], "line": line}})
                 if is_opt:
                     miss = {"k": "aggregate", "agg": "adt", "path": "core::option::Option", "variant": 0, "vname": "None", "args": dty.get("args", []), "is_enum": True, "ops": []}
                 else:
